@@ -24,6 +24,7 @@ type E2E struct {
 	MidSep  bool    `json:"midsep,omitempty"`
 	PostSep bool    `json:"postsep,omitempty"`
 	Embed   bool    `json:"embed,omitempty"` // bare: the signature sits in the scriptPubKey (FindAndDelete)
+	Expl0   bool    `json:"explicit0,omitempty"` // taproot, hash type 0: 65-byte signature with an explicit 0x00 (BIP341: invalid)
 	Mode    string  `json:"mode"`            // good | flip | zero | otheridx
 	Key     string  `json:"key"`
 }
@@ -187,8 +188,11 @@ func runE2E(e *E2E) {
 			trueDigest = sha(pre)
 		}
 		sig := schnorrSign(signer, e.mangle(refDigest), sha(unhx(e.Key)))
-		if htb != 0 {
+		if htb != 0 || e.Expl0 {
 			sig = append(sig, htb)
+		}
+		if htb == 0 && e.Expl0 {
+			defined = false // SIGHASH_DEFAULT must not be spelled out
 		}
 		wit = [][]byte{sig}
 		if ts != nil {
@@ -263,6 +267,8 @@ func e2eCorpus() {
 	runE2E(&E2E{Kind: "bare", Tx: oneInTx(), Idx: 0, Ht: 1, Mode: "good", Key: key, Embed: true})
 	runE2E(&E2E{Kind: "bare", Tx: oneInTx(), Idx: 0, Ht: 0x83, Mode: "good", Key: key, Embed: true, PreSep: true, PostSep: true})
 	runE2E(&E2E{Kind: "p2tr-key", Tx: oneInTx(), Idx: 0, Ht: 0, Mode: "good", Key: key, Annex: strp("50")})
+	runE2E(&E2E{Kind: "p2tr-key", Tx: oneInTx(), Idx: 0, Ht: 0, Mode: "good", Key: key, Expl0: true})
+	runE2E(&E2E{Kind: "p2tr-script", Tx: oneInTx(), Idx: 1, Ht: 0, Mode: "good", Key: key, Expl0: true, MidSep: true})
 }
 
 func genE2E(g *vlib.Rng) *E2E {
@@ -282,6 +288,9 @@ func genE2E(g *vlib.Rng) *E2E {
 	}
 	if !taproot && e.Ht == 0 && g.Bool() {
 		e.Ht = 1
+	}
+	if taproot && e.Ht == 0 && g.Chance(1, 4) {
+		e.Expl0 = true
 	}
 	if taproot && g.Chance(1, 3) {
 		e.Annex = strp("50" + hx(g.Bytes(g.Intn(20))))
